@@ -391,13 +391,13 @@ func qhSubmit(q *Queue, m qhMsg) (string, error) {
 // qhRun executes body as the root controlled thread under the default
 // schedule and keeps firing virtual timers until nothing is pending.
 func qhRun(body func()) *vsched.Outcome {
-	return vsched.Run(nil, vsched.Options{KeepEnv: true, MaxSteps: 400000}, body)
+	return vsched.Run(nil, vsched.Options{KeepEnv: true, MaxSteps: 30000}, body)
 }
 
 // qhRunAt is qhRun with the virtual clock starting at the given offset (a
 // restart happens later than the run it follows).
 func qhRunAt(at time.Duration, body func()) *vsched.Outcome {
-	return vsched.Run(nil, vsched.Options{KeepEnv: true, MaxSteps: 400000, StartAt: at}, body)
+	return vsched.Run(nil, vsched.Options{KeepEnv: true, MaxSteps: 30000, StartAt: at}, body)
 }
 
 func qhSpoolFiles(dir string) []string {
